@@ -26,14 +26,16 @@ Notation J := (J U).
 (* final and mature for the next block *)
 Definition next_ok (c : chain) (p : pool) : Prop :=
   (forall e, In e (p_entries p) -> check_final c (e_tx e) = true) /\
-  (forall e o h, In e (p_entries p) -> In o (t_ins (e_tx e)) -> utxo c o = Some (h, true) -> COINBASE_MATURITY <= height c + 1 - h).
+  (forall e o h, In e (p_entries p) -> In o (t_ins (e_tx e)) -> utxo c o = Some (h, true) -> COINBASE_MATURITY <= height c + 1 - h) /\
+  (* the cached LockPoints refer to a block of the active chain and are satisfied in the next block *)
+  (forall e, In e (p_entries p) -> lock_points_valid c (e_lp e) = true /\ check_seq_locks c (e_lp e) = true).
 
 Record Inv (st : state) : Prop := {
   inv_J : J (s_chain st) (s_pool st) [];
   inv_next : next_ok (s_chain st) (s_pool st) }.
 
 Lemma next_ok_sub c p q : next_ok c p -> incl (p_entries q) (p_entries p) -> next_ok c q.
-Proof. intros [A B] H. split; [intros e He; apply A; auto|intros e o h He; apply B; auto]. Qed.
+Proof. intros [A [B C]] H. split; [intros e He; apply A; auto|split; [intros e o h He; apply B; auto|intros e He; apply C; auto]]. Qed.
 
 Lemma Inv_remove_desc c p seeds : J c p [] -> next_ok c p ->
   J c (remove_list p (descendants p seeds)) [] /\ next_ok c (remove_list p (descendants p seeds)).
@@ -72,10 +74,14 @@ Qed.
 Lemma accept_next_ok pol c now p t p' repl : J c p [] -> next_ok c p -> U t ->
   accept false pol c now p t = (p', Accepted repl) -> J c p' [] /\ next_ok c p' /\ In (t_id t) (pool_ids p').
 Proof.
-  intros Hj [Hf Hm] Ut Ha. destruct (accept_J U U_inj _ _ _ _ _ _ _ _ Hj Ut Ha) as [Hj' Af].
-  destruct Af as [Hvin Hnd Hfin Hfresh (coins & lp & Hcoins & Hmat & Ep') Hanc Hrepl].
+  intros Hj [Hf [Hm Hl]] Ut Ha. destruct (accept_J U U_inj _ _ _ _ _ _ _ _ Hj Ut Ha) as [Hj' Af].
+  destruct Af as [Hvin Hnd Hfin Hfresh (coins & lp & Hcoins & Hmat & Hlp & Hsl & Ep') Hanc Hrepl].
   split; [exact Hj'|]. split; [|rewrite Ep'; unfold pool_ids; rewrite add_entry_entries, map_app; apply in_app_iff; right; left; reflexivity].
-  split.
+  split; [|split].
+  3:{ intros e He. rewrite Ep', add_entry_entries in He. apply in_app_iff in He. destruct He as [He|[<-|[]]].
+      - apply Hl. apply remove_list_In in He. tauto.
+      - simpl. split; [|exact Hsl]. unfold calc_lock_points in Hlp. destruct (calculate_sequence_locks _ _ _ _); [|discriminate].
+        destruct (block_id_at c _) eqn:Eb; [|discriminate]. inversion Hlp; subst. unfold lock_points_valid. simpl. rewrite Eb. apply Z.eqb_refl. }
   - intros e He. rewrite Ep', add_entry_entries in He. apply in_app_iff in He. destruct He as [He|[<-|[]]]; [|exact Hfin].
     apply Hf. apply remove_list_In in He. tauto.
   - intros e o h He Ho Hu. rewrite Ep', add_entry_entries in He. apply in_app_iff in He. destruct He as [He|[<-|[]]].
@@ -152,10 +158,12 @@ Proof.
   pose proof (connect_entries_incl p (b_txs b) (j_pool _ _ _ _ Hj)) as Hi.
   apply IH.
   - exact Hj'.
-  - destruct Hn as [Hf Hm]. split.
+  - destruct Hn as [Hf [Hm Hl]]. split; [|split].
     + intros e He. apply (connect_final U U_inj U_wf); [exact (j_chain _ _ _ _ Hj)|exact Hb|apply (j_pool_U _ _ _ _ Hj); apply Hi; exact He|apply Hf; apply Hi; exact He].
     + intros e o h He Ho Hu. eapply (connect_mature U U_inj c p b e o h Hj Hb HbU); [|apply Hi; exact He|exact Ho|exact Hu].
       intros h' Hu'. eapply Hm; [apply Hi; exact He|exact Ho|exact Hu'].
+    + intros e He. destruct (Hl e (Hi e He)) as [L1 L2]. split; [apply lock_points_valid_cons; exact L1|].
+      apply check_seq_locks_cons; [apply chain_ok_nonempty; exact (j_chain _ _ _ _ Hj)|exact (bf_time _ _ (block_ok_facts _ _ Hb))|exact L2].
   - intros b' t Hb' Ht. apply (HU b' t); [right; exact Hb'|exact Ht].
 Qed.
 
@@ -173,7 +181,7 @@ Proof.
   destruct (memz (t_id t) rejected); [exact Hrem|].
   assert (U t) as Ut by (apply (j_dp_U _ _ _ _ Hj); left; reflexivity).
   destruct (accept_J U U_inj _ _ _ _ _ _ _ _ Hj Ut Ea) as [Hj1 Af].
-  eapply J_dp_absorb; [exact Hj1|]. destruct Af as [_ _ _ _ (coins & lp & _ & _ & Ep') _ _].
+  eapply J_dp_absorb; [exact Hj1|]. destruct Af as [_ _ _ _ (coins & lp & _ & _ & _ & _ & Ep') _ _].
   eexists. split; [rewrite Ep', add_entry_entries; apply in_app_iff; right; left; reflexivity|reflexivity].
 Qed.
 
@@ -211,6 +219,28 @@ Proof.
   - destruct (view_coins p c (t_ins (e_tx e))); [|discriminate].
     destruct (calc_lock_points c l (e_tx e)); [|discriminate].
     destruct (check_seq_locks c l0); [apply (Hafter {| e_tx := e_tx e; e_time := e_time e; e_cb := e_cb e; e_lp := l0 |}); [reflexivity|exact H]|discriminate].
+Qed.
+
+Lemma calc_lock_points_valid c coins t lp : calc_lock_points c coins t = Some lp -> lock_points_valid c lp = true.
+Proof.
+  unfold calc_lock_points. destruct (calculate_sequence_locks _ _ _ _); [|discriminate].
+  destruct (block_id_at c _) eqn:Eb; [|discriminate]. intros H. inversion H; subst. unfold lock_points_valid. simpl. rewrite Eb. apply Z.eqb_refl.
+Qed.
+Lemma filter_entry_keep_lp c p e e' : filter_entry c p e = Some (false, e') ->
+  lock_points_valid c (e_lp e') = true /\ check_seq_locks c (e_lp e') = true.
+Proof.
+  unfold filter_entry. destruct (check_final c (e_tx e)); simpl; [|discriminate].
+  assert (forall x : entry, lock_points_valid c (e_lp x) = true /\ check_seq_locks c (e_lp x) = true ->
+          (if e_cb x then match immature_inputs c p (t_ins (e_tx e)) with Some b => Some (b, x) | None => None end else Some (false, x)) = Some (false, e') ->
+          lock_points_valid c (e_lp e') = true /\ check_seq_locks c (e_lp e') = true) as Hafter.
+  { intros x X Hx. destruct (e_cb x); [destruct (immature_inputs c p _) as [[|]|]; try discriminate|]; inversion Hx; subst; exact X. }
+  destruct (lock_points_valid c (e_lp e)) eqn:V.
+  - destruct (check_seq_locks c (e_lp e)) eqn:S; [|discriminate]. apply (Hafter e). auto.
+  - destruct (view_coins p c (t_ins (e_tx e))); [|discriminate].
+    destruct (calc_lock_points c l (e_tx e)) as [lp|] eqn:C; [|discriminate].
+    destruct (check_seq_locks c lp) eqn:S; [|discriminate].
+    apply (Hafter {| e_tx := e_tx e; e_time := e_time e; e_cb := e_cb e; e_lp := lp |}). simpl.
+    split; [eapply calc_lock_points_valid; exact C|exact S].
 Qed.
 
 Lemma immature_inputs_some c p : forall ins, (forall o, In o ins -> in_pool p (fst o) = true \/ utxo c o <> None) ->
@@ -329,7 +359,6 @@ Proof.
   { eapply Forall2_impl; [|exact HF]. intros a b (x & A & _). eapply filter_entry_shape. exact A. }
   set (p2 := {| p_entries := es'; p_next := p_next p; p_size := p_size p; p_fee := p_fee p |}).
   pose proof (J_reshape c p [] es' Hj Hshape) as Hj2. fold p2 in Hj2.
-  eexists. split; [reflexivity|]. split; [apply J_remove_desc; exact Hj2|].
   assert (forall e', In e' (p_entries (remove_list p2 (descendants p2 bad))) ->
           exists e, In e (p_entries p) /\ filter_entry c p e = Some (false, e')) as Hkept.
   { intros e' He'. apply remove_list_In in He'. destruct He' as [He' Hd]. simpl in He'.
@@ -337,7 +366,12 @@ Proof.
     destruct b; [|exact Fb]. exfalso. apply Hd. pose proof (filter_entry_shape _ _ _ _ _ Fb) as [T _].
     assert (e_id e' = e_id e) as Eid by (unfold e_id; rewrite T; reflexivity).
     rewrite Eid. apply desc_seed; [apply Hb; reflexivity|]. rewrite <- Eid. apply in_map. exact He'. }
-  split.
+  (* the assert after the removals holds *)
+  assert (forallb (fun e => lock_points_valid c (e_lp e)) (p_entries (remove_list p2 (descendants p2 bad))) = true) as Hassert.
+  { apply forallb_forall. intros e' He'. destruct (Hkept e' He') as (e & _ & Fk). apply (filter_entry_keep_lp _ _ _ _ Fk). }
+  rewrite Hassert.
+  eexists. split; [reflexivity|]. split; [apply J_remove_desc; exact Hj2|].
+  split; [|split].
   - intros e' He'. destruct (Hkept e' He') as (e & He & Fk). pose proof (filter_entry_shape _ _ _ _ _ Fk) as [T _].
     rewrite T. apply (filter_entry_keep _ _ _ _ Fk).
   - intros e' o h He' Ho Hu. destruct (Hkept e' He') as (e & He & Fk). pose proof (filter_entry_shape _ _ _ _ _ Fk) as [T Cb].
@@ -351,6 +385,7 @@ Proof.
       destruct Hu as (b & t & Hb & Ht & Ct & Ecbt & _).
       pose proof (j_flag _ _ _ _ Hj e o t He Ecb Ho (j_chain_U _ _ _ _ Hj b t Hb Ht)) as X.
       rewrite X in Ecbt; [discriminate|]. symmetry. apply tx_creates_id. exact Ct.
+  - intros e' He'. destruct (Hkept e' He') as (e & _ & Fk). apply (filter_entry_keep_lp _ _ _ _ Fk).
 Qed.
 
 (* ------------------------------------------------------------------------------------------ *)
